@@ -1,8 +1,8 @@
 //! K-core::sna - C13: SNA save then load restores the machine; saving is side-effect free.
-//! Real Emulator<VHost>, registers / latch / border fully symbolic.  RAM universality by a
-//! *symbolic cell*: one RAM cell (symbolic bank, offset, value) is tracked through the file by
-//! the recorder (pointer identity of the page slices it is handed), the asset gives back exactly
-//! that byte at the recorded file offsets, and the cell must come back after arbitrary disturbance.
+//! Real Emulator<VHost>, registers / latch / border fully symbolic.  RAM is carried by bank
+//! markers: ram_page_data / ram_page_data_mut are stubbed by 4-byte stand-in pages (VPAGES) with
+//! symbolic content, so the harness decides *which bank goes to which file position* for every
+//! paging state; that a page slice is the 16 KiB of its bank is the page_slices harness.
 use super::host::*;
 use crate::{
     emulator::Emulator,
@@ -413,33 +413,3 @@ macro_rules! rt128 {
 }
 rt128!(sna_rt128_same, false);
 rt128!(sna_rt128_fresh, true);
-
-#[kani::proof]
-#[kani::unwind(10)]
-#[kani::stub(libm::sqrt, sqrt_stub)]
-#[kani::stub(crate::zx::sound::mixer::ZXMixer::process, mixer_process_stub)]
-#[kani::stub(crate::zx::video::screen::ZXScreen::process_clocks, screen_process_clocks_stub)]
-#[kani::stub(crate::zx::controller::ZXController::refresh_memory_dependent_devices, refresh_stub)]
-fn sna_probe_new48() {
-    let mut e = Emulator::<VHost>::new(settings(ZXMachine::Sinclair48K, false, false, false), VContext).ok().unwrap();
-    let v: VRegs = kani::any();
-    e.verif_cpu().regs.verif_set(&v);
-    kani::assert(e.verif_cpu().regs.get_pc() == v.pc, "probe");
-}
-
-#[kani::proof]
-#[kani::unwind(10)]
-#[kani::stub(libm::sqrt, sqrt_stub)]
-#[kani::stub(crate::zx::sound::mixer::ZXMixer::process, mixer_process_stub)]
-#[kani::stub(crate::zx::video::screen::ZXScreen::process_clocks, screen_process_clocks_stub)]
-#[kani::stub(crate::zx::controller::ZXController::refresh_memory_dependent_devices, refresh_stub)]
-fn sna_probe_save48() {
-    let mut e = Emulator::<VHost>::new(settings(ZXMachine::Sinclair48K, false, false, false), VContext).ok().unwrap();
-    let mut v: VRegs = kani::any();
-    v.sp = 0x8000;
-    e.verif_cpu().regs.verif_set(&v);
-    let mut file = VFile::new();
-    let r = e.save_snapshot(SnapshotRecorder::Sna(&mut file));
-    kani::assert(r.is_ok(), "probe save ok");
-    kani::assert(file.hdr[0] == v.i, "probe hdr");
-}
